@@ -149,6 +149,15 @@ def via_mhtml(markup):
     return next(read_mhtml(io.BytesIO(body.encode("utf-8")))).content
 
 
+def via_mhtml_nonstandard(markup):
+    """A non-standard archive (no top-level MIME header block, one text/html part): read_mhtml's fallback locates the part by
+    its Content-Type line and the next boundary line."""
+    from sharepoint2text.parsing.extractors.mhtml_extractor import read_mhtml
+    body = ("Saved by a tool that writes no message header\nContent-Type: text/html; charset=\"utf-8\"\n\n" + markup
+            + "\n------=_NextPart_000_0000_01D0--\n")
+    return next(read_mhtml(io.BytesIO(body.encode("utf-8")))).content
+
+
 def via_msg(markup):
     from sharepoint2text.parsing.extractors.mail.msg_email_extractor import _html_to_text
     return _html_to_text(markup)
@@ -224,7 +233,7 @@ def via_msg_route(markup, real_reader=None):
     return mail.body_plain
 
 
-WRAPPERS = [("read_html", via_html), ("read_mhtml", via_mhtml), ("msg._html_to_text", via_msg),
+WRAPPERS = [("read_html", via_html), ("read_mhtml", via_mhtml), ("read_mhtml (non-standard archive)", via_mhtml_nonstandard), ("msg._html_to_text", via_msg),
             ("msg.read_msg_format_mail body", via_msg_route), ("read_epub chapter", via_epub)]
 
 
@@ -245,6 +254,15 @@ def is_extraction_error(e):
         return False
 
 
+def line_start_docs():
+    """Multi-line documents with lines that START with `--` inside the HTML: the end of a multi-line comment, a CSS custom
+    property, a decrement statement in a script (a MIME boundary line also starts with `--`)."""
+    return ["<div>VISa</div>\n<!--\n HIDa\n-->\n<p>VISb</p>\n",
+            "<style>\n:root {\n--main-bg: #fff;\n}\n</style>\n<p>VISa</p>\n<p>VISb</p>\n",
+            "<p>VISa</p>\n<script>\nvar i = 3;\n--i; // HIDa\n</script>\n<p>VISb</p>\n",
+            "<html><body>\n<p>VISa</p>\n<!--[if mso]>\n<p>HIDa</p>\n<![endif]\n-->\n<p>VISb</p>\n</body></html>\n"]
+
+
 def deep_docs():
     """Element nesting deeper than the interpreter's recursion limit (the tree walker is recursive)."""
     return ["<div>" * n + "<script>var HIDs = 1;</script><p>VISa</p><noscript>HIDn</noscript>" + "</div>" * n + "<p>VISb</p>" for n in (1200, 3000)]
@@ -258,6 +276,9 @@ def builder_of(markup):
     for i, d in enumerate(long_prefix_docs()):
         if d == markup:
             return {"fn": "long_prefix_docs", "index": i}
+    for i, d in enumerate(line_start_docs()):
+        if d == markup:
+            return {"fn": "line_start_docs", "index": i}
     return None
 
 
@@ -369,7 +390,7 @@ def witness_events(w, kind, t_override=None, prefix=None):
         ev.append(e)
         rho = step(rho, e)
         k += 1
-    ev += [("S", "p"), ("D", "VISpost"), ("E", "p")]
+    ev += [("D", "VISgap"), ("S", "p"), ("D", "VISpost"), ("E", "p")]       # text right after the region (a tail), then a block
     return ev
 
 
@@ -487,8 +508,163 @@ def grammar():
     docs += ['<script>var s = "<!--";</script><p>VISa</p><!-- HIDa --><p>VISb</p>', "<style>/* <!-- */</style><p>VISa</p><!-- HIDa --><p>VISb</p>",
              "<p title='<!--'>VISa</p><p>VISb</p><!-- HIDa --><p>VISc</p>", '<script>if (a --> b) {}</script><p>VISa</p><!-- HIDa --><p>VISb</p>',
              "<!-- HIDa --><p>VISa</p><script>// --> HIDb</script><p>VISb</p>", "<p>VISa</p><!-- HIDa -- HIDb --><p>VISb</p>", "<p>VISa</p><!--HIDa--!><p>VISb</p>"]
+    docs += literal_docs()
+    docs += conditional_comment_docs()
     docs += long_prefix_docs()
+    docs += line_start_docs()
     docs += deep_docs()
+    return docs
+
+
+# ----------------------------------------------- inputs derived from the code's own regular expressions --
+MODULE_OF = {"mhtml_extractor": "sharepoint2text/parsing/extractors/mhtml_extractor.py", "msg_email_extractor": "sharepoint2text/parsing/extractors/mail/msg_email_extractor.py",
+             "epub_extractor": "sharepoint2text/parsing/extractors/epub_extractor.py", "html_extractor": "sharepoint2text/parsing/extractors/html_extractor.py"}
+
+
+def _min_sample(parsed, gaps):
+    """Shortest string matching a parsed regex; an unbounded repeat that may be empty contributes '' and is recorded as a gap
+    (position in the sample where arbitrary text may stand)."""
+    import re._constants as C
+    out = ""
+    for op, av in parsed:
+        if op is C.LITERAL:
+            out += chr(av)
+        elif op is C.NOT_LITERAL:
+            out += "x" if av != ord("x") else "y"
+        elif op is C.ANY:
+            out += "x"
+        elif op is C.IN:
+            ch = "x"
+            for o2, a2 in av:
+                if o2 is C.LITERAL:
+                    ch = chr(a2)
+                    break
+                if o2 is C.RANGE:
+                    ch = chr(a2[0])
+                    break
+                if o2 is C.CATEGORY:
+                    ch = {"CATEGORY_SPACE": " ", "CATEGORY_DIGIT": "1", "CATEGORY_WORD": "w"}.get(str(a2), "x")
+                    break
+                if o2 is C.NEGATE:
+                    ch = "~"
+            out += ch
+        elif op in (C.MAX_REPEAT, C.MIN_REPEAT) or str(op) == "POSSESSIVE_REPEAT":
+            lo, hi, sub = av
+            if lo == 0 and hi == C.MAXREPEAT:
+                gaps.append(len(out))
+            out += _min_sample(sub, gaps) * lo
+        elif op is C.SUBPATTERN:
+            out += _min_sample(av[-1], gaps)
+        elif op is C.BRANCH:
+            out += _min_sample(av[1][0], gaps)
+        elif op is C.CATEGORY:
+            out += {"CATEGORY_SPACE": " ", "CATEGORY_DIGIT": "1", "CATEGORY_WORD": "w"}.get(str(av), "x")
+        # AT / ASSERT / GROUPREF ...: zero width or not handled -> nothing
+    return out
+
+
+def regex_samples(ob):
+    """[(sample, [gap positions])] for every `re.compile(<literal>)` of the module the obligation is about (read from the tree
+    under test): what the code matches textually is what a textual rewrite of the document will trip over."""
+    import ast as _ast
+    import os
+    import re._parser as rp
+    rel = next((v for k, v in MODULE_OF.items() if k + ".py" in ob), None)
+    if rel is None:
+        return []
+    try:
+        tree = _ast.parse(open(os.path.join(os.environ.get("VERIF_REPO", "/repo"), rel), encoding="utf-8").read())
+    except Exception:  # noqa
+        return []
+    out = []
+    for n in _ast.walk(tree):
+        if isinstance(n, _ast.Call) and _ast.unparse(n.func) in ("re.compile", "re.sub", "re.search", "re.split", "re.findall", "re.finditer", "re.match") \
+                and n.args and isinstance(n.args[0], _ast.Constant) and isinstance(n.args[0].value, (str, bytes)):
+            pat = n.args[0].value
+            pat = pat.decode("latin-1") if isinstance(pat, bytes) else pat
+            try:
+                gaps = []
+                smp = _min_sample(rp.parse(pat), gaps)
+            except Exception:  # noqa
+                continue
+            if any(c in smp for c in "<>") and (smp, gaps) not in out:
+                out.append((smp, gaps))
+    return out
+
+
+def regex_derived_docs(ob):
+    """Documents built from the code's own patterns: each minimal match as a literal in every hidden context; for a pattern
+    with a gap (`START.*?END`) also START in one hidden place, visible text, END in a later hidden place -- and the two
+    halves each completed to a construct of their own (comment) around visible text."""
+    docs = []
+    samples = regex_samples(ob)
+    lits = []
+    for smp, gaps in samples:
+        lits.append(smp)
+        for g in gaps:
+            a, b = smp[:g], smp[g:]
+            lits += [x for x in (a, b) if len(x) >= 2]
+            if len(a) >= 2 and len(b) >= 2:
+                hide = [lambda l: f'<script>var s = "{l} HIDa";</script>', lambda l: f"<!-- {l} HIDa -->", lambda l: f"<style>/* {l} */</style>",
+                        lambda l: f"<a title='{l}'>VISl</a>"]
+                for h1 in hide:
+                    for h2 in hide:
+                        docs.append(f"<html><body><p>VISa</p>{h1(a)}<p>VISm</p>{h2(b)}<p>VISb</p></body></html>")
+                # the halves as comments of their own around visible content (e.g. `<!--[if x]><!-->` VISIBLE `<!--<![endif]-->`)
+                a2 = a if a.startswith("<!--") else "<!--" + a
+                b2 = b if b.endswith("-->") else b + "-->"
+                docs.append(f"<p>VISa</p>{a2} !x]><!--><p>VISm</p><!--{b2 if not b2.startswith('<!--') else b2[4:]}<p>VISb</p>")
+                docs.append(f"<p>VISa</p>{a2} x]> HIDa {b2}<p>VISm</p>{a2} !x]><!-- --><p>VISn</p><!-- {b2[4:] if b2.startswith('<!--') else b2}<p>VISb</p>")
+    if lits:
+        docs += literal_docs(list(dict.fromkeys(lits)))
+    return docs
+
+
+def literal_docs(lits=None):
+    """Markup-looking LITERALS (document-structure end tags, comment / conditional-comment / CDATA delimiters, start and end
+    tags) standing where the tokeniser does not read them as markup -- inside raw text (script / style), inside a comment,
+    inside an attribute value, inside a CDATA section -- or inside a removed element (where they are real but hidden tags),
+    followed by more visible content and the real end of the document.  Anything that cuts, strips or re-balances the
+    document TEXTUALLY (regex over the bytes) instead of through the tokeniser trips over one of them."""
+    lits = lits or ["</html>", "</HTML >", "</body>", "<html>", "<body>", "</head>", "<!DOCTYPE html>", "<![endif]-->", "<!--[if mso]>", "<![endif]>",
+                    "<!--", "-->", "]]>", "<![CDATA[", "</div>", "</p>", "<p>", "</table>", "</noscript>", "</iframe>", "<script>", "<style>"]
+    ctxs = [lambda l: f'<script>var s = "{l} HIDa"; // {l}</script>',
+            lambda l: f"<style>/* {l} HIDa */ p {{ color: red }}</style>",
+            lambda l: f"<!-- {l} HIDa -->",
+            lambda l: f"<noscript>{l} HIDa</noscript>",
+            lambda l: f"<iframe src=x>{l} HIDa</iframe>",
+            lambda l: f"<object data=x>{l} HIDa</object>",
+            lambda l: f"<a href=u title='{l}'>VISl</a>",
+            lambda l: f"<![CDATA[{l} HIDa]]>"]
+    docs = []
+    for l in lits:
+        for cx in ctxs:
+            body = f"<p>VISa</p>{cx(l)}<p>VISb</p>"
+            docs.append(f"<html><head><meta charset=utf-8></head><body>{body}<div>VISc</div></body></html>")
+            docs.append(body + "<!-- HIDz -->VISd")
+    return docs
+
+
+def conditional_comment_docs():
+    """Outlook / IE conditional comments: downlevel-hidden (`<!--[if mso]>HIDDEN<![endif]-->`: one comment), downlevel-revealed
+    (`<!--[if !mso]><!-->VISIBLE<!--<![endif]-->`: two comments around visible content, also spelt `<!-- -->`), the
+    declaration form (`<![if !IE]>VISIBLE<![endif]>`), unterminated and nested-looking ones, several per document."""
+    hidden = ["<!--[if mso]><p>HIDh</p><![endif]-->", "<!--[if gte mso 9]><xml><o:x>HIDh</o:x></xml><![endif]-->",
+              "<!--[if (gt IE 5)&(lt IE 7)]>HIDh<![endif]-->", "<!--[if mso]>HIDh"]
+    revealed = ["<!--[if !mso]><!--><p>VISr</p><!--<![endif]-->", "<!--[if !mso]><!-- --><p>VISr</p><!-- <![endif]-->",
+                "<![if !IE]><p>VISr</p><![endif]>", "<!--[if !mso]>--><p>VISr</p><!--<![endif]-->",
+                "<!--[if !vml]><!-->VISr<img src=x><!--<![endif]-->"]
+    docs = []
+    for r in revealed:
+        docs.append(f"<div>VISa</div>{r}<div>VISb</div>")
+        for h in hidden[:3]:
+            docs.append(f"<div>VISa</div>{h}{r}<div>VISb</div>")
+            docs.append(f"<div>VISa</div>{r}<div>VISb</div>{h}<div>VISc</div>")
+            docs.append(f"<html><body>{h}<table><tr><td>{r}</td></tr></table><p>VISb</p>{h}</body></html>")
+        docs.append(f"<div>VISa</div>{r}<noscript>HIDn</noscript>{r.replace('VISr', 'VISs')}<div>VISb</div>")
+    for h in hidden:
+        docs.append(f"<div>VISa</div>{h.replace('<![endif]-->', '')}<p>HIDu</p><!-- x --><div>VISb</div><!--[if mso]>HIDv<![endif]--><p>VISc</p>"
+                    if h.endswith("<![endif]-->") else f"<div>VISa</div><p>VISb</p>{h}")
     return docs
 
 
@@ -628,10 +804,26 @@ def find(req):
         only = ("read_html", "read_mhtml", "msg")
     else:
         only = None
+    fam = req.get("family")
+    if fam:                                     # a named document family through the named entry points (bounded obligations)
+        n = 0
+        for d in globals()[fam["fn"]]():
+            n += 1
+            bad = check_markup(d, only=tuple(fam.get("only") or ()) or None)
+            if bad:
+                return bad
+        return {"reproduced": False, "note": f"{n} documents of {fam['fn']} agree with the region spec"}
     kw = (req.get("witness") or {}) if req.get("known_finding") else {}
     if kw.get("markup_builder"):
         d = globals()[kw["markup_builder"]["fn"]]()[kw["markup_builder"]["index"]]
         return check_markup(d, only=tuple(kw.get("only") or ()) or None) or {"reproduced": False, "note": "recorded document now agrees with the region spec"}
+    for d in regex_derived_docs(ob):           # directed: what the (changed) module matches textually
+        if "<title>" in d:
+            continue
+        bad = check_markup(d, only=only)
+        if bad:
+            bad["derived_from"] = "regular expressions of the module under test"
+            return bad
     if "msg_email_extractor" in ob:
         known_fns = {k["fn"] for k in recorded_known_docs(ob)}
         for d in long_prefix_docs() + ([] if "deep_docs" in known_fns else deep_docs()):   # directed: evidence position / removed length / depth
